@@ -132,6 +132,7 @@ class Check:
                 "known_findings_not_observed": stale,
                 "unlisted_violations": [v["key"] for v in unlisted],
                 "not_decided": self.undecided,
+                "checker_selftest": getattr(self, "selftest", None),
                 "exhaustive": True,
             },
             "assumptions": self.assumptions,
